@@ -51,6 +51,17 @@ func NewServer(config *ServerConfig, mux *EnvelopeMux, listeners ...BoundListene
 // This is a blocking call which always returns a non nil error.
 // In case of a graceful closing, the returned error is ErrServerClosed.
 func (srv *Server) ListenAndServe() error {
+	// Close takes the same lock: it either finds the server not listening yet or finds
+	// every listener started, never a start-up in progress (the listeners started after
+	// Close had gone through them would stay open for ever).
+	srv.mu.Lock()
+	startingUp := true
+	defer func() {
+		if startingUp {
+			srv.mu.Unlock()
+		}
+	}()
+
 	if srv.shutdown != nil {
 		return errors.New("server already listening")
 	}
@@ -81,6 +92,9 @@ func (srv *Server) ListenAndServe() error {
 		srv.consumeTransports(ctx)
 		return nil
 	})
+
+	startingUp = false
+	srv.mu.Unlock()
 
 	err := eg.Wait()
 
